@@ -182,7 +182,10 @@ def check_tables(chunk, prms, res):
                          detail + f' model(lo,hi,k,n)={info} state={state}')
             # -- code
             digits = str(row['code'])[3:]
-            if not (len(digits) == 3 and digits.isdigit()):
+            if base < 0:
+                if not (len(digits) == 3 and digits.isdigit()):
+                    res.fail('code', 'code of a negative base height is not three digits', detail)
+            elif not (len(digits) == 3 and digits.isdigit()):
                 res.fail('code', f'code does not end in three digits ({which})', detail)
             else:
                 d = int(digits) * 100
